@@ -28,6 +28,9 @@ func unmarshalFromJson(jsonSpecs []byte) ([]OperationSpec, error) {
 	var specSlice []OperationSpec
 
 	dec := json.NewDecoder(bytes.NewReader(jsonSpecs))
+	// The schema lists the allowed keys (additionalProperties: false), but it validates
+	// the decoded struct: a key the struct does not have must be refused here.
+	dec.DisallowUnknownFields()
 	for {
 		var doc OperationSpec
 		err := dec.Decode(&doc)
@@ -48,6 +51,8 @@ func unmarshalFromYaml(yamlSpecs []byte) ([]OperationSpec, error) {
 	var specSlice []OperationSpec
 
 	dec := yaml.NewDecoder(bytes.NewReader(yamlSpecs))
+	// See unmarshalFromJson.
+	dec.KnownFields(true)
 	for {
 		var doc OperationSpec
 		err := dec.Decode(&doc)
